@@ -19,3 +19,23 @@ package io
 //@   ensures[no-silent-truncation] result1 == nil ==> !$scanFailed
 //@   loop 0 invariant[count] cnt == $added - old($added) && cnt == $parsedOK - old($parsedOK)
 //@   loop 0 decreases $scanRem
+
+// WriteGraph (fork/join: the listing goroutine runs when it is started): one line per triple the
+// graph delivered, each the printed triple followed by a newline; the count returned on success is the
+// number of lines written and the number of triples delivered; a failure of the listing or of a write
+// is returned.
+//@ ghost var $written Int
+//@ ghost var $writeFailed Bool
+//@ props C05 C20 C08
+//@ func WriteGraph
+//@   opt go-sequential
+//@   opt terminates
+//@   requires g != nil && w != nil
+//@   modifies $driverFailed, $delivered, $written, $writeFailed
+//@   ensures[driver-error-surfaces@C20] $driverFailed && !old($driverFailed) ==> result1 != nil
+//@   ensures[write-error-surfaces] $writeFailed && !old($writeFailed) ==> result1 != nil
+//@   ensures[count-is-lines-written] result1 == nil ==> result0 == $written - old($written)
+//@   ensures[count-is-triples-delivered] result1 == nil ==> result0 == $delivered - old($delivered)
+//@   atcall WriteString assert[one-line-per-triple] s == tstr(t) + "\n"
+//@   loop 0 invariant deref(addr(ts)) != nil && deref(addr(ts)).#closed == 1 && deref(addr(ts)).#len == atentry(deref(addr(ts)).#len) && 0 <= deref(addr(ts)).#rcvd && deref(addr(ts)).#rcvd <= deref(addr(ts)).#len && (forall k int :: {deref(addr(ts)).#out[k]} 0 <= k && k < deref(addr(ts)).#len ==> wfTriple(deref(addr(ts)).#out[k])) && $driverFailed == atentry($driverFailed) && $delivered == atentry($delivered) && (wErr == nil ==> cnt == deref(addr(ts)).#rcvd && cnt == $written - old($written) && ($writeFailed ==> old($writeFailed))) && (wErr != nil ==> true)
+//@   loop 0 decreases deref(addr(ts)).#len - deref(addr(ts)).#rcvd
